@@ -37,6 +37,13 @@ impl Encoder for RawCodec {
             dst.put_slice(&item[3..3 + k]);
             return Err(Status::internal("codec refused the message"));
         }
+        // a message starting with [250, 18, e] stands for one of 2^32 + e bytes: address space is reserved and claimed, never touched
+        if item.len() >= 3 && item[0] == 250 && item[1] == 18 {
+            let n = (1usize << 32) + item[2] as usize;
+            dst.reserve(n);
+            unsafe { dst.advance_mut(n) };
+            return Ok(());
+        }
         dst.put_slice(&item);
         Ok(())
     }
